@@ -1,7 +1,7 @@
 ----------------------------- MODULE MC_FftDefs -----------------------------
-(* state-independent properties of the fourteen definitions, checked once *)
+(* state-independent properties of the fourteen definitions: checked as invariants of a *)
+(* one-case instance (they only need the tables held in `tab`)                          *)
 EXTENDS Gen_Fft
-ASSUME NamesDistinctT
-ASSUME InversePairs
-ASSUME RealInverse
+One_Shapes == {<<3>>}
+One_Names == {"fft"}
 =============================================================================
